@@ -60,15 +60,20 @@ func cmdConc(args []string) error {
 							}
 							data := docs()
 							// sequential results, each from a fresh object
-							want := make([]string, len(data))
-							for di, d := range data {
+							nd := len(data)
+							if object == "shared filter" {
+								nd = len(fconts)
+							}
+							want := make([]string, nd)
+							for di := 0; di < nd; di++ {
 								if object == "shared filter" {
 									fl, err := bexpr.CreateFilter(src)
 									if err != nil {
 										return err
 									}
-									_, want[di] = execute(fl, fconts[di%len(fconts)])
+									_, want[di] = execute(fl, fconts[di])
 								} else {
+									d := data[di]
 									ev, out := run.Create(src, o...)
 									if ev == nil {
 										return fmt.Errorf("%q: %s", src, out.O)
@@ -100,13 +105,13 @@ func cmdConc(args []string) error {
 									defer wg.Done()
 									<-start
 									for c := 0; c < ncalls; c++ {
-										di := (g + c) % len(data)
+										di := (g + c) % nd
 										var got string
 										switch object {
 										case "shared evaluator":
 											got = run.Eval(ev, data[di]).O
 										case "shared filter":
-											_, got = execute(fl, fconts[di%len(fconts)])
+											_, got = execute(fl, fconts[di])
 										default:
 											e2, out := run.Create(src, o...)
 											if e2 == nil {
